@@ -152,6 +152,8 @@ type capReq struct {
 	good    bool            // answered with a PublishResponse whose service result is Good
 	deliver ack             // notification delivered (kind data, good)
 	results []ua.StatusCode // acknowledgement results sent
+	atMs    int64           // arrival, ms since the start of the case
+	sendErr string          // the response could not be sent
 }
 
 func (r *capReq) String() string {
@@ -159,7 +161,10 @@ func (r *capReq) String() string {
 	for _, a := range r.acks {
 		as = append(as, fmt.Sprintf("%d/%d", a.sub, a.seq))
 	}
-	s := fmt.Sprintf("#%d conn#%d acks[%s] <- %s", r.idx, r.conn, strings.Join(as, " "), r.kind)
+	s := fmt.Sprintf("%6dms #%d conn#%d.%d acks[%s] <- %s", r.atMs, r.idx, r.conn, r.seq, strings.Join(as, " "), r.kind)
+	if r.sendErr != "" {
+		s += " (NOT SENT: " + r.sendErr + ")"
+	}
 	if r.kind == "data" {
 		s += fmt.Sprintf(" %d/%d", r.deliver.sub, r.deliver.seq)
 	}
@@ -186,25 +191,30 @@ type ackWorld struct {
 	c   AckCase
 	srv *script.Server
 
-	mu       sync.Mutex
-	started  bool
-	reqs     []*capReq
-	held     []*heldReq
-	next     int // next step
-	tail     int
-	live     map[uint32]bool
-	deleted  map[uint32]pos // subscription id -> position of its DeleteSubscriptions request in the client's stream of publish requests
-	perConn  map[int]int    // publish requests captured per connection
-	used     map[uint32]map[uint32]bool
-	nextSub  uint32
-	tokConn  map[string]int
-	events   []string
-	t0       time.Time
-	lastReq  time.Time
-	conns    int
-	reconn   int
-	kinds    map[string]int
-	rescodes map[string]int
+	mu        sync.Mutex
+	started   bool
+	reqs      []*capReq
+	held      []*heldReq
+	next      int // next step
+	tail      int
+	live      map[uint32]bool
+	deleted   map[uint32]pos  // subscription id -> position of its DeleteSubscriptions request in the client's stream of publish requests
+	perConn   map[int]int     // publish requests captured per connection
+	byApp     map[uint32]bool // subscriptions created while an application Subscribe call was running
+	inApp     bool            // an application Subscribe call is running
+	orphan    map[uint32]bool // created for an application Subscribe call that failed at the client (e.g. timed out): the client does not know them
+	appFailed bool            // an application Subscribe call failed: its CreateSubscription request may still arrive
+	knownAt   map[uint32]pos  // subscriptions created by an application Subscribe call during the history: position at which the call had returned
+	used      map[uint32]map[uint32]bool
+	nextSub   uint32
+	tokConn   map[string]int
+	events    []string
+	t0        time.Time
+	lastReq   time.Time
+	conns     int
+	reconn    int
+	kinds     map[string]int
+	rescodes  map[string]int
 }
 
 // pos is a position in the client's stream of publish requests: the client uses
@@ -280,7 +290,12 @@ func (w *ackWorld) results(s PubStep, n int) []ua.StatusCode {
 func (w *ackWorld) process(conn *script.Conn, reqID uint32, req *ua.PublishRequest, cr *capReq) {
 	respond := func(resp ua.Response) {
 		// answered synchronously: the order of responses on the wire is the order of the history
-		_ = conn.Respond(reqID, resp)
+		if err := conn.Respond(reqID, resp); err != nil {
+			// nothing was delivered and nothing was answered
+			cr.sendErr = err.Error()
+			cr.good = false
+			cr.kind = "unsent-" + cr.kind
+		}
 	}
 	ids := w.liveIDs()
 	if w.next >= len(w.c.Steps) {
@@ -355,7 +370,7 @@ func (w *ackWorld) handle(conn *script.Conn, req ua.Request, reqID uint32) bool 
 	case *ua.PublishRequest:
 		w.mu.Lock()
 		defer w.mu.Unlock()
-		cr := &capReq{idx: len(w.reqs), conn: conn.ID, seq: w.perConn[conn.ID], reqID: reqID, kind: "held"}
+		cr := &capReq{idx: len(w.reqs), conn: conn.ID, seq: w.perConn[conn.ID], reqID: reqID, kind: "held", atMs: time.Since(w.t0).Milliseconds()}
 		w.perConn[conn.ID]++
 		for _, a := range r.SubscriptionAcknowledgements {
 			if a != nil {
@@ -399,6 +414,13 @@ func (w *ackWorld) handle(conn *script.Conn, req ua.Request, reqID uint32) bool 
 		id := w.nextSub
 		w.live[id] = true
 		w.used[id] = map[uint32]bool{}
+		if w.inApp {
+			w.byApp[id] = true
+		} else if w.appFailed {
+			// possibly the request of an application Subscribe call that the client
+			// gave up: the client may not know this subscription
+			w.orphan[id] = true
+		}
 		w.logf("conn#%d CreateSubscription -> %d", conn.ID, id)
 		w.mu.Unlock()
 		_ = conn.Respond(reqID, &ua.CreateSubscriptionResponse{ResponseHeader: script.Header(req, ua.StatusOK), SubscriptionID: id,
@@ -444,7 +466,14 @@ func (w *ackWorld) handle(conn *script.Conn, req ua.Request, reqID uint32) bool 
 
 // judgeAcks returns "" or a description of the first violated clause. The
 // requests are judged in the order the client sent them (see pos).
-func judgeAcks(captured []*capReq, deleted map[uint32]pos) string {
+//
+// fastMs > 0 (histories with a short publish timeout): a response counts as
+// processed by the client only if the next request on the same connection
+// arrived within fastMs of the request it answers. A client that gave the
+// request up (timeout) sends the next request later than that, unless this
+// process delayed the request or the response by the rest of the timeout,
+// which the starvation gate detects.
+func judgeAcks(captured []*capReq, deleted map[uint32]pos, orphan map[uint32]bool, knownAt map[uint32]pos, fastMs int64) string {
 	reqs := append([]*capReq(nil), captured...)
 	sort.SliceStable(reqs, func(i, j int) bool {
 		if reqs[i].conn != reqs[j].conn {
@@ -458,6 +487,9 @@ func judgeAcks(captured []*capReq, deleted map[uint32]pos) string {
 		var out []int
 		for m := k + 1; m < len(reqs) && reqs[m].conn == reqs[k].conn; m++ {
 			out = append(out, m)
+		}
+		if fastMs > 0 && len(out) > 0 && reqs[out[0]].atMs-reqs[k].atMs >= fastMs {
+			return nil // the client may have given request k up before the response arrived
 		}
 		return out
 	}
@@ -511,6 +543,12 @@ func judgeAcks(captured []*capReq, deleted map[uint32]pos) string {
 		if d, ok := deleted[r.deliver.sub]; ok && d.before(reqs[ls[1]]) {
 			continue // the subscription did not stay registered
 		}
+		if orphan[r.deliver.sub] {
+			continue // the client never knew the subscription
+		}
+		if p, ok := knownAt[r.deliver.sub]; ok && !p.before(r) {
+			continue // the request arrived before the application's Subscribe call had returned
+		}
 		found := false
 		for m := k + 1; m < len(reqs) && !found; m++ {
 			for _, b := range reqs[m].acks {
@@ -541,7 +579,7 @@ type ackResult struct {
 
 func executeAcks(c AckCase) (res ackResult, err error) {
 	hb := starve.Begin()
-	w := &ackWorld{c: c, live: map[uint32]bool{}, deleted: map[uint32]pos{}, perConn: map[int]int{}, used: map[uint32]map[uint32]bool{}, tokConn: map[string]int{},
+	w := &ackWorld{c: c, live: map[uint32]bool{}, deleted: map[uint32]pos{}, perConn: map[int]int{}, byApp: map[uint32]bool{}, orphan: map[uint32]bool{}, knownAt: map[uint32]pos{}, used: map[uint32]map[uint32]bool{}, tokConn: map[string]int{},
 		t0: time.Now(), kinds: map[string]int{}, rescodes: map[string]int{}}
 	srv, e := script.Start(script.Options{Handle: w.handle, OnConn: func(*script.Conn) { w.mu.Lock(); w.conns++; w.mu.Unlock() }})
 	if e != nil {
@@ -603,13 +641,47 @@ func executeAcks(c AckCase) (res ackResult, err error) {
 			}
 		}
 	}()
+	// subscribe is the application's Subscribe call. A subscription the server
+	// created for a call that failed at the client (its response timed out on a
+	// loaded machine) is not known to the client: the server may publish for it,
+	// the client cannot acknowledge that.
+	subscribe := func(timeout time.Duration) error {
+		w.mu.Lock()
+		w.inApp = true
+		w.mu.Unlock()
+		sctx, sc := context.WithTimeout(ctx, timeout)
+		sub, e := cl.Subscribe(sctx, &opcua.SubscriptionParameters{Interval: 100 * time.Millisecond, MaxKeepAliveCount: keepAlive, LifetimeCount: 3 * keepAlive}, nch)
+		sc()
+		w.mu.Lock()
+		w.inApp = false
+		if e != nil {
+			w.appFailed = true
+		}
+		for id := range w.byApp {
+			if e != nil || sub == nil || sub.SubscriptionID != id {
+				w.orphan[id] = true
+				w.logf("subscription %d was created for a Subscribe call that failed at the client: %v", id, e)
+			} else if w.started {
+				// a PublishRequest that reached the server before this moment may be
+				// answered with a notification of the new subscription before the
+				// client has registered it; only later requests count for clause (iii)
+				newest := -1
+				for c := range w.perConn {
+					if c > newest {
+						newest = c
+					}
+				}
+				w.knownAt[id] = pos{newest, w.perConn[newest]}
+			}
+			delete(w.byApp, id)
+		}
+		w.mu.Unlock()
+		return e
+	}
 	for i := 0; i < c.Subs; i++ {
 		var e error
 		for attempt := 0; attempt < 5; attempt++ {
-			sctx, sc := context.WithTimeout(ctx, 10*time.Second)
-			_, e = cl.Subscribe(sctx, &opcua.SubscriptionParameters{Interval: 100 * time.Millisecond, MaxKeepAliveCount: keepAlive, LifetimeCount: 3 * keepAlive}, nch)
-			sc()
-			if e == nil {
+			if e = subscribe(10 * time.Second); e == nil {
 				break
 			}
 			time.Sleep(100 * time.Millisecond)
@@ -660,9 +732,16 @@ wait:
 			// the publish loop has stopped (e.g. the server claimed to have no
 			// subscription): another Subscribe starts it again, the history goes on
 			kicks++
-			sctx, sc := context.WithTimeout(ctx, 5*time.Second)
-			_, e := cl.Subscribe(sctx, &opcua.SubscriptionParameters{Interval: 100 * time.Millisecond, MaxKeepAliveCount: keepAlive, LifetimeCount: 3 * keepAlive}, nch)
-			sc()
+			if os.Getenv("VERIF_C26_DEV_RING") != "" {
+				w.mu.Lock()
+				var rs []string
+				for _, r := range w.reqs {
+					rs = append(rs, r.String())
+				}
+				fmt.Printf("KICK after %v idle\n%s\n%s\n---- gopcua debug tail ----\n%s\n---- end ----\n", idle, strings.Join(rs, "\n"), strings.Join(w.events, "\n"), devRing.dump())
+				w.mu.Unlock()
+			}
+			e := subscribe(5 * time.Second)
 			w.mu.Lock()
 			w.lastReq = time.Now()
 			w.logf("publish loop idle for %v: extra Subscribe -> %v", kickAfter, e)
@@ -685,6 +764,14 @@ wait:
 	for k, v := range w.deleted {
 		deleted[k] = v
 	}
+	orphan := map[uint32]bool{}
+	for k := range w.orphan {
+		orphan[k] = true
+	}
+	knownAt := map[uint32]pos{}
+	for k, v := range w.knownAt {
+		knownAt[k] = v
+	}
 	cls := map[string]bool{}
 	for k := range w.kinds {
 		cls["step:"+k] = true
@@ -701,6 +788,9 @@ wait:
 	consumed := w.next
 	events := append([]string(nil), w.events...)
 	w.mu.Unlock()
+	if len(orphan) > 0 {
+		cls["subscription-unknown-to-the-client(Subscribe-call-failed)"] = true
+	}
 	if kicks > 0 {
 		cls["publish-loop-restarted-by-an-extra-Subscribe"] = true
 	}
@@ -739,7 +829,11 @@ wait:
 	}
 	sort.Strings(res.classes)
 
-	res.verdict = judgeAcks(reqs, deleted)
+	fastMs := int64(0)
+	if c.hasDrop() {
+		fastMs = 1000 // publish timeout 2 s (+ 250 ms leniency of the client)
+	}
+	res.verdict = judgeAcks(reqs, deleted, orphan, knownAt, fastMs)
 	if res.verdict != "" {
 		res.obs.Verdict = res.verdict
 		for _, r := range reqs {
